@@ -27,29 +27,28 @@ open CopVerif CopVerif.Model.VineFlow
 theorem fix01_range {ε h : ℝ} (hε : 0 < ε) (hε2 : ε < 1 / 2) (h0 : 0 ≤ h) (h1 : h ≤ 1) :
     0 < fix01 ε h ∧ fix01 ε h < 1 ∧ (h = 0 → fix01 ε h = ε) ∧ (h = 1 → fix01 ε h = 1 - ε) ∧
       (0 < h → h < 1 → fix01 ε h = h) ∧ min h ε ≤ fix01 ε h ∧ fix01 ε h ≤ max h (1 - ε) := by
-  unfold fix01
+  have hne : ε ≠ 1 := by linarith
+  have v0 : fix01 ε (0 : ℝ) = ε := by simp [fix01, hne]
+  have v1 : fix01 ε (1 : ℝ) = 1 - ε := by simp [fix01]
+  have vm : h ≠ 0 → h ≠ 1 → fix01 ε h = h := by
+    intro a b; simp [fix01, a, b]
   by_cases e0 : h = 0
   · subst e0
-    have hne : ε ≠ 1 := by linarith
-    have b1 : NumFns.beq (0 : ℝ) (NumFns.ofNat 0) = true := by simp
-    have b2 : NumFns.beq ε (NumFns.ofNat 1) = false := by simp [hne]
-    simp only [b1, b2, if_true]
-    refine ⟨hε, by linarith, fun _ => by simp, fun h => by norm_num at h, fun h => absurd h (lt_irrefl 0),
-      by simp [hε.le], by simp; right; linarith⟩
+    rw [v0]
+    refine ⟨hε, by linarith, fun _ => rfl, fun h => by norm_num at h,
+      fun h => absurd h (lt_irrefl 0), min_le_right _ _, ?_⟩
+    exact le_trans (by linarith) (le_max_right _ _)
   · by_cases e1 : h = 1
     · subst e1
-      have b1 : NumFns.beq (1 : ℝ) (NumFns.ofNat 0) = false := by simp
-      have b2 : NumFns.beq (1 : ℝ) (NumFns.ofNat 1) = true := by simp
-      simp only [b1, b2, if_true]
-      refine ⟨by simp; linarith, by simp; linarith, fun h => by norm_num at h, fun _ => by simp,
-        fun _ h => absurd h (lt_irrefl 1), by simp; right; linarith, by simp⟩
-    · have b1 : NumFns.beq h (NumFns.ofNat 0) = false := by simp [e0]
-      have b2 : NumFns.beq h (NumFns.ofNat 1) = false := by simp [e1]
-      simp only [b1, b2]
+      rw [v1]
+      refine ⟨by linarith, by linarith, fun h => by norm_num at h, fun _ => rfl,
+        fun _ h => absurd h (lt_irrefl 1), ?_, le_max_right _ _⟩
+      exact le_trans (min_le_right _ _) (by linarith)
+    · rw [vm e0 e1]
       have hpos : 0 < h := lt_of_le_of_ne h0 (Ne.symm e0)
       have hlt : h < 1 := lt_of_le_of_ne h1 e1
-      exact ⟨hpos, hlt, fun h => absurd h e0, fun h => absurd h e1, fun _ _ => by simp,
-        by simp, by simp⟩
+      exact ⟨hpos, hlt, fun h => absurd h e0, fun h => absurd h e1, fun _ _ => rfl,
+        min_le_left _ _, le_max_left _ _⟩
 
 /-- both stored rows of `edge.U`. -/
 theorem edgeU_range {ε : ℝ} (H : ℝ → ℝ → ℝ) (hε : 0 < ε) (hε2 : ε < 1 / 2)
@@ -100,15 +99,15 @@ theorem edge_inputs_spec_partial {prev : Tree} {e : Edge}
 `parents[0].U[1] = F(3 | 0,2)` as LEFT input and `parents[1].U[1] = F(2 | 0,1)` as RIGHT input,
 whereas the edge needs `F(1 | 0,2) = parents[1].U[0]` and `F(3 | 0,2) = parents[0].U[1]`. -/
 theorem edge_inputs_counterexample :
-    ∃ (p0 p1 e : Edge) (prev : Tree), dvine4 = [_, prev, [e]] ∧ prev = [p0, p1] ∧
+    ∃ (t1 prev : Tree) (p0 p1 e : Edge), dvine4 = [t1, prev, [e]] ∧ prev = [p0, p1] ∧
       treeWF prev = true ∧ identify p0 p1 = .ok (e.L, e.R, [0, 2]) ∧ e.D = [0, 2] ∧
       flowOK e p0 p1 = false ∧
       edgePlan false prev e = .ok ⟨.uof 0 1, .uof 1 1⟩ ∧
       slotVar p0 1 = 3 ∧ e.L = 1 ∧ slotVar p1 1 = 2 ∧ e.R = 3 ∧
       needSlot p0 p1 0 1 e.L = some (.uof 1 0) ∧ needSlot p0 p1 0 1 e.R = some (.uof 0 1) := by
-  refine ⟨⟨0, 0, 3, [2], some (1, 0)⟩, ⟨1, 1, 2, [0], some (2, 1)⟩, ⟨0, 1, 3, [0, 2], some (0, 1)⟩,
-    _, rfl, rfl, ?_⟩
-  decide
+  refine ⟨_, _, ⟨0, 0, 3, [2], some (1, 0)⟩, ⟨1, 1, 2, [0], some (2, 1)⟩,
+    ⟨0, 1, 3, [0, 2], some (0, 1)⟩, rfl, rfl, ?_⟩
+  refine ⟨by decide, rfl, rfl, by decide, rfl, rfl, rfl, rfl, rfl, rfl, rfl⟩
 
 /-- whole-vine form: in a `goodVine` the fit plan exists (no step raises). -/
 theorem fit_plan_total_partial :
@@ -144,13 +143,23 @@ theorem likelihood_reads_written_partial {trees : List Tree} (hg : goodVine tree
   obtain ⟨plan, h1, _, h3⟩ := likPlan_spec hg
   exact ⟨plan, h1, h3⟩
 
+/-- the complete read plan of `get_likelihood` on `dvine4`. -/
+def dvine4Plan : List (List LikEdge) := [
+  [⟨.input 2, .input 3, .u 2, .u 3⟩, ⟨.input 0, .input 2, .u 0, .u 2⟩, ⟨.input 0, .input 1, .u 0, .u 1⟩],
+  [⟨.cell 0 2 true, .cell 3 2 true, .h 0 1 (.u 0) (.u 2), .h 0 0 (.u 3) (.u 2)⟩,
+   ⟨.cell 1 0 true, .cell 2 0 true, .h 0 2 (.u 1) (.u 0), .h 0 1 (.u 2) (.u 0)⟩],
+  [⟨.cell 1 0 false, .cell 3 2 false, .junk 1 1 0, .junk 1 3 2⟩]]
+
 /-- On `dvine4` the level-3 edge reads `uni_matrix[1, 0]` and `uni_matrix[3, 2]`; level 2 wrote
-only `[0,3] [3,0] [1,2] [2,1]`: both reads hit `⊥` (the content of `np.empty`). -/
+only `[0,3] [3,0] [1,2] [2,1]`: both reads hit `⊥` (the content of `np.empty`), whereas the
+specification needs `F(1 | 0,2)` (cell `[1,2]`) and `F(3 | 0,2)` (cell `[3,0]`). -/
 theorem likelihood_reads_written_counterexample :
-    ∃ l1 l2, likPlan dvine4 = .ok [l1, l2,
-      [⟨.cell 1 0 false, .cell 3 2 false, .junk 1 1 0, .junk 1 3 2⟩]] := by
-  refine ⟨_, _, ?_⟩
-  decide
+    likPlan dvine4 = .ok dvine4Plan ∧
+    dvine4Plan[2]? = some [⟨.cell 1 0 false, .cell 3 2 false, .junk 1 1 0, .junk 1 3 2⟩] ∧
+    (specArgs dvine4).map (·[2]?) = some (some
+      [(.h 1 1 (.h 0 2 (.u 1) (.u 0)) (.h 0 1 (.u 2) (.u 0)),
+        .h 1 0 (.h 0 0 (.u 3) (.u 2)) (.h 0 1 (.u 0) (.u 2)))]) :=
+  ⟨rfl, rfl, rfl⟩
 
 /-- **Partial** (hypothesis `goodVine`): the value of `get_likelihood(u)` is
 `Σ_trees Σ_edges log pdf_e(a_e, b_e)` where `(a_e, b_e)` are the h-propagated arguments of the
@@ -178,23 +187,13 @@ theorem likelihood_deterministic_partial {trees : List Tree} (hg : goodVine tree
 
 /-- On `dvine4` the value depends on the previous content of the `np.empty` buffer. -/
 theorem likelihood_deterministic_counterexample :
-    ∃ (plan : List (List LikEdge)) (I : Interp ℝ) (u : ℕ → ℝ) (j1 j2 : ℕ → ℕ → ℕ → ℝ),
-      likPlan dvine4 = .ok plan ∧
-      likValue I u j1 (plan.map (·.map LikEdge.args)) ≠ likValue I u j2 (plan.map (·.map LikEdge.args)) := by
-  obtain ⟨l1, l2, h⟩ := likelihood_reads_written_counterexample
-  refine ⟨_, ⟨fun _ _ a _ => a, fun k _ a _ => if k = 2 then Real.exp a else 1⟩, fun _ => 0,
-    fun _ _ _ => 0, fun _ _ _ => 1, h, ?_⟩
-  have hl : ∀ (j : ℕ → ℕ → ℕ → ℝ) (l : List LikEdge) (i : ℕ) (k : ℕ), k ≠ 2 →
-      sumFrom (fun i a => NumFns.log ((fun k _ a _ => if k = 2 then Real.exp a else (1 : ℝ)) k i
-        (evalTerm ⟨fun _ _ a _ => a, fun k _ a _ => if k = 2 then Real.exp a else 1⟩ (fun _ => 0) j a.1)
-        (evalTerm ⟨fun _ _ a _ => a, fun k _ a _ => if k = 2 then Real.exp a else 1⟩ (fun _ => 0) j a.2)))
-        i (l.map LikEdge.args) = 0 := by
-    intro j l
-    induction l with
-    | nil => intro i k _; simp [sumFrom]
-    | cons x xs ih => intro i k hk; simp [sumFrom, hk, ih (i + 1) k hk]
-  simp [likValue, sumTrees, hl _ l1 0 0 (by decide), hl _ l2 0 1 (by decide), sumFrom, evalTerm,
-    LikEdge.args]
+    ∃ (I : Interp ℝ) (u : ℕ → ℝ) (j1 j2 : ℕ → ℕ → ℕ → ℝ),
+      likPlan dvine4 = .ok dvine4Plan ∧
+      likValue I u j1 (dvine4Plan.map (·.map LikEdge.args)) ≠
+        likValue I u j2 (dvine4Plan.map (·.map LikEdge.args)) := by
+  refine ⟨⟨fun _ _ a _ => a, fun k _ a _ => if k = 2 then Real.exp a else 1⟩, fun _ => 0,
+    fun _ _ _ => 0, fun _ _ _ => 1, rfl, ?_⟩
+  simp [likValue, sumTrees, sumFrom, evalTerm, dvine4Plan, LikEdge.args]
 
 /-! ## sampling -/
 
@@ -229,22 +228,15 @@ theorem sampleRow_visits {trees : List Tree} {t : Tree} {rest : List Tree} {d tr
 example : ∀ first < 4, rootedOK dvine4.head! 4 first (bfsRoot dvine4.head! 4 first).1
     (bfsRoot dvine4.head! 4 first).2 = true := by decide
 
-/-- **Partial**: for two columns the sampler is `x_first = PPF_first(u_first)`,
-`x_other = PPF_other(clamp(C⁻¹(u_other | u_first)))` — C09's transform followed by the marginal
-quantiles, for either start node.  The statistical agreement of the output (marginals, Kendall tau)
-is not a theorem: it is C09/C03 plus the deep search. -/
-theorem two_column_sampling_partial (idx : ℕ) (trunc : ℕ) (ht : 1 ≤ trunc) :
-    sampleRow [[⟨idx, 0, 1, [], none⟩]] 2 trunc 0 =
-        (if idx = 0 then .ok [⟨0, none, []⟩, ⟨1, some 0, [⟨0, 0, true⟩]⟩] else .error .indexError) ∧
-    sampleRow [[⟨idx, 0, 1, [], none⟩]] 2 trunc 1 =
-        (if idx = 0 then .ok [⟨1, none, []⟩, ⟨0, some 1, [⟨0, 0, true⟩]⟩] else .error .indexError) := by
-  have h0 : ¬ trunc ≤ 0 := by omega
-  constructor <;>
-  · by_cases hi : idx = 0
-    · subst hi
-      simp [sampleRow, traverse, adjRow, adjB, annotate, visitSteps, findEdge, h0, List.range,
-        List.range.loop]
-    · simp [sampleRow, traverse, adjRow, adjB, annotate, visitSteps, findEdge, h0, hi, List.range,
-        List.range.loop]
+/-- **Partial**: for two columns (any truncation `≥ 1`) the sampler is
+`x_first = PPF_first(u_first)`, `x_other = PPF_other(clamp(C⁻¹(u_other | u_first)))` — C09's
+transform followed by the marginal quantiles, for either start node.  The statistical agreement of
+the output (marginals, Kendall tau) is not a theorem: it is C09/C03 plus the deep search. -/
+theorem two_column_sampling_partial (n : ℕ) :
+    sampleRow [[⟨0, 0, 1, [], none⟩]] 2 (n + 1) 0 =
+        .ok [⟨0, none, []⟩, ⟨1, some 0, [⟨0, 0, true⟩]⟩] ∧
+    sampleRow [[⟨0, 0, 1, [], none⟩]] 2 (n + 1) 1 =
+        .ok [⟨1, none, []⟩, ⟨0, some 1, [⟨0, 0, true⟩]⟩] :=
+  ⟨rfl, rfl⟩
 
 end CopVerif.Props.C17
